@@ -48,7 +48,61 @@ class C19(Prop):
       return dict(case, ops=[["defer", sigs[-1]], ["defer", sigs[0]]] + list(case["ops"]))
     return st.one_of(base, base, base, base, base, base.map(two_deferred), base.map(spytrace.at_capacity))
 
+  def extra(self, tier, seed, shard, nshards, stats):
+    """A post made DURING a step by somebody else than the handler: a state of a started
+    ActiveObject arms a timed post that fires at once and stays in its step until the event has
+    arrived - the step's log has the POST marker between the handler's line and its HOOK line."""
+    if shard != 0:
+      return
+    for kind in ("fifo", "lifo"):
+      for times in (1, 2):
+        case = {"timed_post_during_step": kind, "times": times, "schedule": []}
+        try:
+          self.check_timed(case, stats)
+        except PropertyViolation as v:
+          yield case, v
+          return
+
+  def check_timed(self, case, stats):
+    from .c10 import TimedWorld
+    from .. import detsched
+    kind = case["timed_post_during_step"]
+    w = TimedWorld(case)
+    box = {}
+
+    def body(s):
+      def on_extra(c, e):
+        if e.signal_name == "VA":
+          getattr(c, "post_" + kind)(w.Event(signal=w.signals["VB"], payload=1), period=0.5, times=case["times"],
+                                     deferred=False)
+          w.ao.time.sleep(0.1)          # the source's first posting arrives while this step runs
+      chart, fn = w.make_chart(s, on_extra=on_extra)
+      chart.start_at(fn)
+      s.quiesce()
+      chart.post_fifo(w.Event(signal=w.signals["VA"], payload=0))
+      s.sleep_until(s.now + 0.3)
+      box["spy"] = list(chart.spy())
+      chart.cancel_events(w.Event(signal=w.signals["VB"]))
+      s.quiesce()
+    try:
+      w.run(body)
+    except (detsched.Deadlock, detsched.StepLimit) as e:
+      raise PropertyViolation("no quiescence: %s" % e, "C19:liveness")
+    stats.case(case, True, ["timed_post_during_step"])
+    spy = box["spy"]
+    marker = "POST_%s:VB" % kind.upper()
+    try:
+      i = spy.index("VA:vflat")
+      j = spy.index("VA:vflat:HOOK")
+    except ValueError:
+      raise PropertyViolation("the step of VA is not in the spy: %s" % spy[-12:], "C19:full")
+    if spy[i + 1:j] != [marker]:
+      raise PropertyViolation("a timed %s post fired while the step of VA was running: between %r and %r the spy has %s, "
+                              "expected [%r]" % (kind, spy[i], spy[j], spy[i + 1:j], marker), "C19:rtc")
+
   def check(self, case, stats):
+    if "timed_post_during_step" in case:
+      return self.check_timed(case, stats)
     run = spytrace.Run(case)
     nontrivial, classes = False, []
     seen_hook = seen_mark = False
